@@ -1,7 +1,7 @@
 """C14  Profile lookups always reflect the latest synchronised data, also after restart."""
 import json
 import os
-from vlib import Check, read_ndjson, main, Undecided
+from vlib import Check, read_ndjson, write_ndjson, main, Undecided
 
 GO_DECL = """package profiledb
 
@@ -61,7 +61,10 @@ def run(c: Check):
     c.cov["rule"] = ("a case is one history of backend mutations, full/partial syncs, restarts, look-ups and explicitly "
                      "scheduled clean-ups on the real profiledb.Default; after every step all four look-ups are probed "
                      "for the whole key universe; non-trivial = contains a scheduled clean-up or a restart; distinct by "
-                     "the action sequence")
+                     "the action sequence; backend leg: a case is one history of backend mutations, scheduled full / "
+                     "incremental syncs (empty ones included), look-ups and clean-ups on the real backendpb.ProfileStorage + "
+                     "profiledb.Default against an in-process gRPC backend, non-trivial = an incremental sync had to deliver "
+                     "a deleted profile; every probe of every look-up after a step is one evaluation")
     c.sample({"history": [(e["ev"], e["d"], e["p"], e["k"]) for e in ev[1:30]]})
     for sg, idx, reason in fails:
         e = sg[idx]
@@ -77,14 +80,110 @@ def run(c: Check):
                         json.dumps(e["phuman"]), e.get("restore")),
                     {"segment": [{k: x[k] for k in ("ev", "d", "p", "k")} for x in sg[:idx + 1]], "last_event": e,
                      "reason": reason})
+    _backend(c, th)
     crash_points(c, th)
     c.assumptions += [
-        "the scripted Storage delivers whole dirty profiles with all their devices, like backendpb",
+        "the scripted Storage of the stepper delivers whole dirty profiles with all their devices; that the real "
+        "backendpb.ProfileStorage + profiledb.Default pair does so is checked against an in-process backend that follows "
+        "the protocol of dns.proto (full sync = zero sync_time = all live profiles, never deleted ones; incremental sync "
+        "= profiles changed since the sync_time of the previous trailer, deleted ones as tombstones with or without "
+        "their devices; trailer always present) -- that the production backend follows it is assumed",
         "clean-up goroutines are intercepted by an overlay rewrite of `go db.remove*(...)` (VerifGo) and run when the "
         "schedule says; time.Now is virtualised (VerifNow) to choose full or partial syncs",
         "auto-device creation is not modelled (AutoDevicesEnabled = false in generated profiles)",
         "TLC, SANY, CommunityModules Json",
     ]
+
+
+def _backend(c, th):
+    """The real backendpb.ProfileStorage feeding the real profiledb.Default against an in-process DNSService:
+    the protocol ProfileDB.tla assumes of the storage (TraceProfileSync.tla)."""
+    nhist, nsteps = (400, 80) if th else (12, 40)
+    out, _ = c.go_harness("internal/backendpb", "^TestVerifC14Backend$", rewrites=overlay(c),
+                          env={"VERIF_NHIST": nhist, "VERIF_NSTEPS": nsteps}, files=["c14pb_test.go"], timeout=900)
+    ev = read_ndjson(out)
+    path = os.path.join(c.scratch, "c14pb.ndjson")
+    write_ndjson(path, ev)
+    r = c.tlc_trace("TraceProfileSync", "TraceProfileSync.cfg", path, timeout=600)
+    if r.tuples("STUCK"):
+        raise Undecided("backend-sync trace spec stuck:\n%s" % r.out[-2000:])
+    nonconf = r.tuples("NONCONF")
+    if not r.ok and not nonconf:
+        raise Undecided("backend-sync trace rejected without a non-conformant line:\n%s" % r.out[-2000:])
+    # a line with probes_bad or a broken chain that TLC did not report would be a fault of the spec binding
+    flagged = {int(t[0]) - 1 for t in nonconf}
+    for i, e in enumerate(ev):
+        if e["probes_bad"] and i not in flagged:
+            raise Undecided("backend-sync: line %d has disagreeing probes but was accepted by the trace spec" % (i + 1))
+    hists, cur = [], []
+    for e in ev:
+        if e["ev"] == "Reset" and cur:
+            hists.append(cur)
+            cur = []
+        cur.append(e)
+    if cur:
+        hists.append(cur)
+    badh = {ev[i]["hist"] for i in flagged}
+    c.cov["traces_validated_against_impl"] += len(hists) - len(badh)
+    syncs = [e for e in ev if e["ev"] == "Sync"]
+    for h in hists:
+        ops = [(e["ev"], e["op"]) for e in h if e["ev"] != "Reset"]
+        c.count_case(("backend", ops), nontrivial=any(e["ev"] == "Sync" and not e["full_expected"] and e["exp_deleted"] > 0
+                                                        for e in h))
+        c.cov["evaluations"] += sum(e["nprobes"] for e in h) - 1
+    reported = {}
+    for t in nonconf:
+        i = int(t[0]) - 1
+        e = ev[i]
+        h = [x for x in ev[:i + 1] if x["hist"] == e["hist"]]
+        ops = ["%s %s" % (x["ev"], x["op"]) for x in h if x["ev"] != "Reset"]
+        for clause in ("SyncTimeChain", "LookupsMatchReference"):
+            if clause not in t[1]:
+                continue
+            # the first offending line of a history per clause, a few histories per clause
+            seen = reported.setdefault(clause, set())
+            if e["hist"] in seen or len(seen) >= 3:
+                continue
+            seen.add(e["hist"])
+            if clause == "SyncTimeChain":
+                what = ("sync #%d of the history: the schedule calls for %s sync, the backend received %d request(s), "
+                        "the last one %s (sync_time %s ms, trailer of the previous response %s)" % (
+                            len([x for x in h if x["ev"] == "Sync"]), "a full" if e["full_expected"] else "an incremental",
+                            e["nreq"], "FULL (zero sync_time)" if e["req_full"] else "incremental", e["req_rel_ms"],
+                            "matched" if e["req_time_is_prev_trailer"] else "NOT matched"))
+            else:
+                what = "%d look-up(s) disagree with the latest synchronised backend records after %s %s: %s" % (
+                    len(e["probes_bad"]), e["ev"], e["op"], "; ".join(e["probes_bad"][:3]))
+            c.violation({"kind": "backend-sync", "clause": clause},
+                        "C14 backendpb.ProfileStorage + profiledb.Default, %s: %s; history (deleted profiles sent %s their "
+                        "devices, clean-ups %s): ... %s" % (clause, what, "with" if e["tomb_devices"] else "without",
+                                                              e["cleanups"], ops[-12:]),
+                        {"history": h, "line": e, "reasons": t[1]})
+    if not nonconf:
+        # vacuity: judged on what the SCHEDULE called for, not on what the code under test asked the backend
+        inc = [e for e in syncs if not e["full_expected"]]
+        want = 5 * nhist
+        problems = []
+        if len(syncs) < want:
+            problems.append("only %d syncs (want >= %d)" % (len(syncs), want))
+        if not any(e["exp_streamed"] == 0 for e in inc):
+            problems.append("no incremental sync with nothing to deliver")
+        if not any(e["exp_deleted"] > 0 for e in inc):
+            problems.append("no profile deletion was delivered by an incremental sync")
+        if not any(e["prev_sync_empty"] and e["exp_deleted"] > 0 for e in inc):
+            problems.append("no profile deletion right after an empty incremental sync")
+        if sum(1 for h in hists for e in [x for x in h if x["ev"] == "Sync"][1:] if e["full_expected"]) < 1:
+            problems.append("no full sync after the first one of a history")
+        if not any(e["ndeleted_found"] > 0 for e in ev) or not any(e["nfound"] > 0 for e in ev):
+            problems.append("the look-ups never found a device (of a deleted profile)")
+        if len({e["tomb_devices"] for e in ev}) < 2 and th:
+            problems.append("only one way of sending deleted profiles was exercised")
+        if problems:
+            raise Undecided("backend-sync harness vacuous: " + "; ".join(problems))
+    c.sample({"backend_sync": [{k: e[k] for k in ("op", "full_expected", "req_full", "req_time_is_prev_trailer", "nstreamed",
+                                                    "ndeleted_streamed", "nprobes", "nfound")} for e in syncs[:8]],
+              "histories": len(hists), "syncs": len(syncs),
+              "empty_incremental": sum(1 for e in syncs if not e["full_expected"] and e["exp_streamed"] == 0)})
 
 
 def crash_points(c, th):
